@@ -333,10 +333,34 @@ func (f *FuncInfo) IsPanicExit(b *cfg.Block) bool {
 	if len(b.Nodes) == 0 {
 		return false
 	}
-	if _, ok := b.Nodes[len(b.Nodes)-1].(*ast.ReturnStmt); ok {
+	switch last := b.Nodes[len(b.Nodes)-1].(type) {
+	case *ast.ReturnStmt:
+		return false
+	case *ast.ExprStmt:
+		if call, ok := ast.Unparen(last.X).(*ast.CallExpr); ok && f.noReturnCall(call) {
+			return true
+		}
+	case *ast.CallExpr:
+		if f.noReturnCall(last) {
+			return true
+		}
+	}
+	// a body that falls off its end (no result values): an implicit return, not a panic
+	return false
+}
+
+// IsImplicitReturn says whether a live block without successors ends the function by falling off the
+// end of its body (functions without results, or after a final loop/switch).
+func (f *FuncInfo) IsImplicitReturn(b *cfg.Block) bool {
+	if len(b.Succs) != 0 || !b.Live {
 		return false
 	}
-	return true
+	if len(b.Nodes) > 0 {
+		if _, ok := b.Nodes[len(b.Nodes)-1].(*ast.ReturnStmt); ok {
+			return false
+		}
+	}
+	return !f.IsPanicExit(b)
 }
 
 // ReturnPoints lists the points of all (live) return statements, including the synthetic final one.
